@@ -44,6 +44,7 @@ type c6stmt struct {
 	nCases int
 	hasDef bool
 	defPos int // position of default among the clauses in source order (0..nCases)
+	list   bool // the single case clause lists two values: case 0, 1: / case c1, c2:
 	size   int
 }
 
@@ -223,6 +224,9 @@ func (g *c6gen) allStmts(size int, c c6ctx) []*c6stmt {
 					}
 					prod(sp, ctxs, func(b [][]*c6stmt) {
 						out = append(out, &c6stmt{kind: kd, c1: cp[0], c2: cp[1], blocks: b, nCases: nCases, size: size})
+						if nCases == 1 && !g.narrow && (kd == c6swTag || cp[0] == 1) {
+							out = append(out, &c6stmt{kind: kd, c1: 1, c2: 2, blocks: b, nCases: nCases, list: true, size: size})
+						}
 					})
 				}
 				// with default at each position
@@ -235,6 +239,9 @@ func (g *c6gen) allStmts(size int, c c6ctx) []*c6stmt {
 						dp := dp
 						prod(sp, ctxs, func(b [][]*c6stmt) {
 							out = append(out, &c6stmt{kind: kd, c1: cp[0], c2: cp[1], blocks: b, nCases: nCases, hasDef: true, defPos: dp, size: size})
+							if nCases == 1 && !g.narrow && (kd == c6swTag || cp[0] == 1) {
+								out = append(out, &c6stmt{kind: kd, c1: 1, c2: 2, blocks: b, nCases: nCases, hasDef: true, defPos: dp, list: true, size: size})
+							}
 						})
 					}
 				}
@@ -318,7 +325,11 @@ func (w *c6render) stmt(s *c6stmt, ind string) {
 				w.block(s.blocks[s.nCases], in)
 			}
 			if ci < s.nCases {
-				if s.kind == c6swTag {
+				if s.list && s.kind == c6swTag {
+					fmt.Fprintf(&w.b, "%scase %s, %s:\n", ind, w.fl.cases[0], w.fl.cases[1])
+				} else if s.list {
+					fmt.Fprintf(&w.b, "%scase %s, %s:\n", ind, w.fl.conds[s.c1], w.fl.conds[s.c2])
+				} else if s.kind == c6swTag {
 					fmt.Fprintf(&w.b, "%scase %s:\n", ind, w.fl.cases[ci])
 				} else {
 					c := s.c1
@@ -524,7 +535,11 @@ func (it *c6interp) exec(s *c6stmt, base int) c6sig {
 	case c6swTag, c6swBool:
 		bases := c6switchBases(s, base)
 		chosen := -1
-		if s.kind == c6swTag {
+		if s.list {
+			if (s.kind == c6swTag && it.n%3 <= 1) || (s.kind == c6swBool && (it.cond(s.c1) || it.cond(s.c2))) {
+				chosen = 0
+			}
+		} else if s.kind == c6swTag {
 			tag := it.n % 3
 			for ci := 0; ci < s.nCases; ci++ {
 				if tag == ci {
@@ -659,7 +674,7 @@ func c6run(r *report.Run) {
 		goEvery = 25
 		nFlavors = 3
 	}
-	r.Rule("all programs of the control-flow mini language (trace/break/continue/return leaves; if, if-else, if-else-if, 3-clause for, condition for, infinite for, range, tagged and tagless switch with 1-2 cases and default absent/first/middle/last; blocks of 1-2 statements; conditions true, n%2==0, n<3; each also written on a single source line) with at most N statement nodes that the reference interpreter finishes, each entered with the counter n = 0, 1 and 3, plus all programs with N+1 nodes over the narrow sub-language {leaves, if / if-else on two conditions, range, tagless switch with one case and optional default}; non-trivial = distinct program containing at least one break/continue/return inside a compound statement")
+	r.Rule("all programs of the control-flow mini language (trace/break/continue/return leaves; if, if-else, if-else-if, 3-clause for, condition for, infinite for, range, tagged and tagless switch with 1-2 cases (a single case also with a list of two values) and default absent/first/middle/last; blocks of 1-2 statements; conditions true, n%2==0, n<3; each also written on a single source line) with at most N statement nodes that the reference interpreter finishes, each entered with the counter n = 0, 1 and 3, plus all programs with N+1 nodes over the narrow sub-language {leaves, if / if-else on two conditions, range, tagless switch with one case and optional default}; non-trivial = distinct program containing at least one break/continue/return inside a compound statement")
 	r.Assume("reference interpreter (structured, ~120 lines) is trusted as far as its cross-validation against the Go toolchain reaches: the complete <=4-node layer in every run", "programs the reference does not finish within 1000 steps are dropped (a program it finishes but goatlang does not is a violation)")
 	g := &c6gen{stmts: map[string][]*c6stmt{}, blocks: map[string][][]*c6stmt{}}
 	top := c6ctx{}
